@@ -587,7 +587,18 @@ func c19RunX(e *Env, wide bool, sw *c19SweepCase, park bool) {
 		for j := 0; j < k && pos < len(order); j++ {
 			si := order[pos]
 			c := chunks[si][next[si]]
-			e.Obs("chunk stream=%d len=%d (stream bytes %d..%d of %d msgs)", c.stream, len(c.data), fed[si], fed[si]+len(c.data), len(streams[si]))
+			cls := "big"
+			switch l := len(c.data); {
+			case l == 1:
+				cls = "1"
+			case l < 20:
+				cls = "<20"
+			case l == 20:
+				cls = "20"
+			case l < 120:
+				cls = "<120"
+			}
+			e.Act(fmt.Sprintf("chunk:s%d:%s", si, cls), "stream=%d len=%d (stream bytes %d..%d)", c.stream, len(c.data), fed[si], fed[si]+len(c.data))
 			next[si]++
 			fed[si] += len(c.data)
 			be.Feed(c)
